@@ -13,7 +13,7 @@ GEN_UNITS = ["GenKtensor4", "GenKtensor4b", "GenSptensor4", "GenSptensor4b", "Ge
 COQ_TARGETS = ["Props/W4C08.vo", "Props/W4C08b.vo", "Props/W4C08c.vo", "Props/W4C08d.vo", "Props/W4C07.vo", "Props/W4C07b.vo", "Props/W4C07c.vo", "Props/W4C07d.vo", "Props/W4C04.vo", "Model/W4Harness.vo", "Model/W4Harness2.vo", "Model/Harness.vo"]
 THEOREM_FILES = ["Props/W4C08.v", "Props/W4C08b.v", "Props/W4C08c.v", "Props/W4C08d.v", "Props/W4C07.v", "Props/W4C07b.v", "Props/W4C07c.v", "Props/W4C07d.v", "Props/W4C04.v"]
 COQ_IMPORTS = ("From Coq Require Import List ZArith Bool.\n"
-               "From PV Require Import Np.NpZ Np.NpZ2 Np.NpZ3 Np.NpZ3c Np.NpZ3d Np.NpZ3e Np.NpZ4 Np.NpZ4b Np.NpZ4c Np.NpZ4d Np.NpZ4e Gen.GenUtils3 Gen.GenKtensor4 Gen.GenKtensor4b Gen.GenSptensor4 Gen.GenSptensor4b Gen.GenSptensor4c Gen.GenSptensor4d Model.Harness Model.W4Sptensor Model.W4Harness2 "
+               "From PV Require Import Np.NpZ Np.NpZ2 Np.NpZ3 Np.NpZ3c Np.NpZ3d Np.NpZ3e Np.NpZ4 Np.NpZ4b Np.NpZ4c Np.NpZ4d Np.NpZ4e Np.NpZ4f Gen.GenUtils3 Gen.GenKtensor4 Gen.GenKtensor4b Gen.GenSptensor4 Gen.GenSptensor4b Gen.GenSptensor4c Gen.GenSptensor4d Model.Harness Model.W4Sptensor Model.W4Harness2 "
                "Model.W4Harness.\n")
 RULE = ("small Kruskal tensors (1-4 modes, 0-4 components, sizes 1-3, integer-valued float data, C- / F-ordered / strided factor "
         "buffers) x every argument family incl. malformed ones (non-permutations, repeated / negative / out-of-range component "
@@ -266,6 +266,12 @@ def gen_cases(rng, tier):
             sh = [d if rng.random() < 0.5 else 1 for d in t["shape"]] if rng.random() < 0.7 else [1] * N
             t2 = {"subs": [[min(x, d - 1) for x, d in zip(row, sh)] for row in t["subs"]], "vals": t["vals"], "shape": sh}
         cases.append(Case("sp_squeeze", {"t": t2, "layout": lay}, bool(t2["subs"])))
+        # wave 6: modes of size 0 (only an empty tensor has them) next to singletons / larger modes.  /repo reads `shapeArray > 1`
+        # up to fix f390850 (the size-0 mode is dropped) and `shapeArray != 1` after it (kept): generated text and pyttb are compared
+        # on whichever tree is under test.
+        sh0 = [rng.choice([0, 0, 1, 1, 2, 3]) for _ in range(N)]
+        # (the sptensor constructor rejects such a shape: the receiver is made the way they arise, tensor.to_sptensor())
+        cases.append(Case("sp_squeeze", {"t": {"subs": [], "vals": [], "shape": sh0}, "layout": 0, "via": "dense"}, False))
         orders = [list(p) for p in itertools.permutations(range(N))] if N <= 3 else [rng.sample(range(N), N) for _ in range(4)]
         for o in rng.sample(orders, min(len(orders), 2)):
             cases.append(Case("sp_permute", {"t": t, "order": o, "as": rng.choice(["list", "tuple", "arr"]), "layout": lay}, bool(t["subs"])))
@@ -365,6 +371,10 @@ def gen_cases(rng, tier):
             mb = (mb * 3)[:ra]
         cases.append(Case("prim5_hstack", {"a": ma, "b": mb, "wa": wa, "wb": wb}, True))
         cases.append(Case("prim5_ge_s", {"v": [rng.randint(-4, 4) for _ in range(rng.randint(0, 5))], "c": rng.randint(-3, 3)}, True))
+        # primitives of Np/NpZ4f.v (translator option "m6"): ndarray != int, ndarray == int
+        v6 = [rng.randint(-2, 3) for _ in range(rng.randint(0, 5))]
+        cases.append(Case("prim6_ne_s", {"v": v6, "c": rng.randint(-2, 3)}, True))
+        cases.append(Case("prim6_eq_s", {"v": v6, "c": rng.randint(-2, 3)}, True))
     return cases
 
 
@@ -456,7 +466,10 @@ def run_impl(c):
             r = obs_spt(np, py_spt(np, ttb, a["t"], a["layout"]).logical_not())
             return {"ok": r} if r is not None else {"bad": "non-integer result"}
         if c.op == "sp_squeeze":
-            r = py_spt(np, ttb, a["t"], a["layout"]).squeeze()
+            if a.get("via") == "dense":
+                r = ttb.tensor(np.zeros(tuple(a["t"]["shape"]))).to_sptensor().squeeze()
+            else:
+                r = py_spt(np, ttb, a["t"], a["layout"]).squeeze()
             if isinstance(r, ttb.sptensor):
                 o_ = obs_spt(np, r)
                 return {"ok": {"t": o_}} if o_ is not None else {"bad": "non-integer result"}
@@ -476,6 +489,10 @@ def run_impl(c):
             return {"ok": _ints(np, np.concatenate((A, B), axis=1))}
         if c.op == "prim5_ge_s":
             return {"ok": [bool(x) for x in (np.array(a["v"], dtype=int) >= a["c"])]}
+        if c.op == "prim6_ne_s":
+            return {"ok": [bool(x) for x in (np.array(a["v"], dtype=int) != a["c"])]}
+        if c.op == "prim6_eq_s":
+            return {"ok": [bool(x) for x in (np.array(a["v"], dtype=int) == a["c"])]}
         if c.op == "sp_subdims":
             reg = [py_ix(np, x) for x in a["region"]]
             r = py_spt(np, ttb, a["t"], a["layout"]).subdims(reg if a["as"] == "list" else tuple(reg))
@@ -604,6 +621,8 @@ def coq_check(c, o):
         return _guarded(f"np_hstack_ok {call}", f"mat_eqb (np_hstack {call}) {gzmat(o['ok'])}" if "exc" not in o else "", o)
     if c.op == "prim5_ge_s":
         return f"bvec_eqb (np_ge_s {gzlist(a['v'])} {gz(a['c'])}) {gblist(o['ok'])}"
+    if c.op in ("prim6_ne_s", "prim6_eq_s"):
+        return f"bvec_eqb ({'np_ne_s' if c.op == 'prim6_ne_s' else 'np_eq_s'} {gzlist(a['v'])} {gz(a['c'])}) {gblist(o['ok'])}"
     if c.op == "sp_permute":
         isb = "true" if _order_isbool(a) else "false"      # the dtype flag of the generated function (order.dtype == bool)
         return _res("w4_spt_eqb", f"sptensor_permute {gspt(a['t'])} {gzlist(a['order'])} {isb}", o, gspt)
@@ -769,6 +788,14 @@ def oracle(c, o):
         return None
     if c.op == "sp_squeeze":
         t = a["t"]
+        if 0 in t["shape"]:
+            # a mode of size 0 (finding N-C07-7 of C07, fix f390850 pending): the accepted behaviour keeps it (`!= 1`), /repo before
+            # the fix drops it (`> 1`).  This oracle accepts exactly these two readings here; which one the tree under test
+            # shows is judged by C07's comparer (status of the finding), the generated text is compared with pyttb either way.
+            outs = []
+            for keep in ([j for j, d in enumerate(t["shape"]) if d > 1], [j for j, d in enumerate(t["shape"]) if d != 1]):
+                outs.append({"t": {"subs": [], "vals": [], "shape": [t["shape"][j] for j in keep]}} if keep else {"v": 0})
+            return None if o.get("ok") in outs else f"squeeze returned {o}, expected one of {outs}"
         keep = [j for j, d in enumerate(t["shape"]) if d > 1]
         if not keep:
             if len(t["vals"]) > 1:
